@@ -5,7 +5,8 @@ position.  The form is invariant under:
   * renamed / introduced / inlined local temporaries and a repeated sub-expression computed once
     (assignments to local names are substituted into their uses; tuple assignments too);
   * guard clauses / early returns vs if/else nesting (the continuation is pushed into both
-    branches), `if not c: A else: B` vs `if c: B else: A`, `elif` chains;
+    branches), `if not c: A else: B` vs `if c: B else: A`, `x is not None` / `!=` / `not in` vs
+    the positive test with swapped branches, `elif` chains;
   * conditional expressions vs if/else statements (an `a if c else b` inside a statement is lifted
     to a branch of the tree);
   * keyword-argument order in calls, docstrings, comments, `pass`.
@@ -99,56 +100,200 @@ def _lift(st, field):
     return ast.If(test=x.test, body=[a], orelse=[b])
 
 
-def tree(stmts, env=None):
+class Scope:
+    """where private helpers are looked up: the class (and its bases), the module, and modules of the
+    package the module imports names from.  `keep` = names that are ROLES of the pin (hooks the pin
+    talks about): they are not inlined.  Only private names (leading underscore, no dunder) are
+    inlined: public methods are API."""
+
+    def __init__(self, cls=None, bases=(), mod=None, repo=None, keep=()):
+        self.methods = {}
+        for c in ([cls] if cls is not None else []) + list(bases):
+            for n in c.body:
+                if isinstance(n, ast.FunctionDef) and n.name not in self.methods:
+                    decos = {_u(d) for d in n.decorator_list}
+                    if decos <= {"staticmethod"}:
+                        self.methods[n.name] = (n, "staticmethod" in decos)
+        self.functions = {}
+        if mod is not None:
+            for n in mod.body:
+                if isinstance(n, ast.FunctionDef) and not n.decorator_list:
+                    self.functions[n.name] = n
+            if repo is not None:
+                import os
+                for n in mod.body:
+                    if isinstance(n, ast.ImportFrom) and n.module and n.module.startswith("sktime.") and n.level == 0:
+                        path = os.path.join(repo, n.module.replace(".", "/"))
+                        for cand in (path + ".py", os.path.join(path, "__init__.py")):
+                            if os.path.exists(cand):
+                                try:
+                                    with open(cand) as f:
+                                        m2 = ast.parse(f.read())
+                                except SyntaxError:
+                                    break
+                                defs = {x.name: x for x in m2.body if isinstance(x, ast.FunctionDef)
+                                        and not x.decorator_list}
+                                for a in n.names:
+                                    if a.name in defs and (a.asname or a.name) not in self.functions:
+                                        self.functions[a.asname or a.name] = defs[a.name]
+                                break
+        self.keep = set(keep)
+
+    @staticmethod
+    def private(name):
+        return name.startswith("_") and not (name.startswith("__") and name.endswith("__"))
+
+    def resolve(self, call):
+        """(FunctionDef, parameter names to bind) for an inlinable call, else None"""
+        f = call.func
+        if isinstance(f, ast.Attribute) and isinstance(f.value, ast.Name) and f.value.id == "self" \
+                and f.attr in self.methods and self.private(f.attr) and f.attr not in self.keep:
+            fn, static = self.methods[f.attr]
+            params = [a.arg for a in fn.args.args]
+            return fn, (params if static else params[1:])
+        if isinstance(f, ast.Name) and f.id in self.functions and self.private(f.id) and f.id not in self.keep:
+            fn = self.functions[f.id]
+            return fn, [a.arg for a in fn.args.args]
+        return None
+
+
+def _first_inlinable(e, scope, conditional=False):
+    if isinstance(e, (ast.Lambda, ast.ListComp, ast.SetComp, ast.DictComp, ast.GeneratorExp)):
+        return None
+    if isinstance(e, ast.IfExp):
+        kids = [(e.test, conditional), (e.body, True), (e.orelse, True)]
+    elif isinstance(e, ast.BoolOp):
+        kids = [(v, conditional or i > 0) for i, v in enumerate(e.values)]
+    else:
+        kids = []
+        for k in ast.iter_child_nodes(e):
+            if isinstance(k, ast.expr):
+                kids.append((k, conditional))
+            elif isinstance(k, ast.keyword):
+                kids.append((k.value, conditional))
+    for k, c in kids:
+        h = _first_inlinable(k, scope, c)
+        if h is not None:
+            return h
+    if isinstance(e, ast.Call) and not conditional and scope.resolve(e) is not None:
+        return e
+    return None
+
+
+def _bind(call, fn, params):
+    a = fn.args
+    if a.vararg or a.kwarg or a.kwonlyargs or a.posonlyargs:
+        return None
+    if any(isinstance(x, ast.Starred) for x in call.args) or any(k.arg is None for k in call.keywords):
+        return None
+    if len(call.args) > len(params):
+        return None
+    env = dict(zip(params, call.args))
+    for k in call.keywords:
+        if k.arg not in params or k.arg in env:
+            return None
+        env[k.arg] = k.value
+    for p_, d in zip(params[len(params) - len(a.defaults):], a.defaults):
+        env.setdefault(p_, d)
+    return env if set(env) == set(params) else None
+
+
+def _map_leaves(t, k):
+    kind = t[0]
+    if kind == "IF":
+        return ("IF", t[1], _map_leaves(t[2], k), _map_leaves(t[3], k))
+    if kind in ("EFF", "OPAQUE", "ASSERT"):
+        return (kind, t[1], _map_leaves(t[2], k))
+    if kind == "RET":
+        return k(t[1] if t[1] is not None else ast.Constant(None))
+    if kind == "END":
+        return k(ast.Constant(None))
+    return t                                   # RAISE
+
+
+def tree(stmts, env=None, scope=None, depth=0, presub=False):
     env = dict(env or {})
     if not stmts:
         return ("END",)
     st, rest = stmts[0], list(stmts[1:])
+    if presub:
+        _sub = lambda e, env_: e                # the first statement is substituted already
+    else:
+        _sub = subst
+    rec = lambda stmts_, env_: tree(stmts_, env_, scope, depth)
     if isinstance(st, ast.Pass) or (isinstance(st, ast.Expr) and isinstance(st.value, ast.Constant)
                                     and isinstance(st.value.value, str)):
-        return tree(rest, env)
+        return rec(rest, env)
     for field in ("value", "test"):
         if isinstance(st, (ast.Return, ast.Assign, ast.Expr, ast.If, ast.Assert, ast.AugAssign)) \
                 and hasattr(st, field) and not (isinstance(st, ast.If) and field == "value"):
             lifted = _lift(st, field)
             if lifted is not None:
-                return tree([lifted] + rest, env)
+                return tree([lifted] + rest, env, scope, depth, presub)
+    # private helpers are inlined (value and effect positions alike): extraction, inlining, moving,
+    # renaming and splitting of helpers all normalise to the same tree
+    if scope is not None and depth < 6:
+        field = "test" if isinstance(st, (ast.If, ast.Assert)) else "value"
+        e0 = getattr(st, field, None) if isinstance(st, (ast.Return, ast.Assign, ast.Expr, ast.If, ast.Assert, ast.AugAssign)) else None
+        if isinstance(e0, ast.expr):
+            e_s = _sub(e0, env)
+            h = _first_inlinable(e_s, scope)
+            if h is not None:
+                fn, params = scope.resolve(h)
+                cenv = _bind(h, fn, params)
+                if cenv is not None:
+                    ctree = tree(body_of(fn), cenv, scope, depth + 1)
+
+                    def k(v, st=st, field=field, e_s=e_s, h=h):
+                        st2 = copy.copy(st)
+                        setattr(st2, field, _replace(e_s, h, v))
+                        if isinstance(st, ast.Expr) and h is e_s:
+                            return tree(rest, env, scope, depth)          # value of an effect call dropped
+                        return tree([st2] + rest, env, scope, depth, presub=True)
+                    return _map_leaves(ctree, k)
     if isinstance(st, ast.Return):
-        return ("RET", None if st.value is None else subst(st.value, env))
+        return ("RET", None if st.value is None else _sub(st.value, env))
     if isinstance(st, ast.Raise):
         exc = st.exc.func if isinstance(st.exc, ast.Call) else st.exc
         return ("RAISE", _u(exc) if exc is not None else "")
     if isinstance(st, ast.If):
-        t = subst(st.test, env)
+        t = _sub(st.test, env)
         body, orelse = list(st.body), list(st.orelse)
-        while isinstance(t, ast.UnaryOp) and isinstance(t.op, ast.Not):
-            t, body, orelse = t.operand, orelse, body
+        while True:
+            if isinstance(t, ast.UnaryOp) and isinstance(t.op, ast.Not):
+                t, body, orelse = t.operand, orelse, body
+            elif isinstance(t, ast.Compare) and len(t.ops) == 1 and isinstance(t.ops[0], (ast.IsNot, ast.NotEq, ast.NotIn)):
+                # `a is not b` / `a != b` / `a not in b`: the positive test with the branches swapped
+                pos = {ast.IsNot: ast.Is, ast.NotEq: ast.Eq, ast.NotIn: ast.In}[type(t.ops[0])]()
+                t, body, orelse = ast.Compare(left=t.left, ops=[pos], comparators=t.comparators), orelse, body
+            else:
+                break
         if isinstance(t, ast.Constant) and isinstance(t.value, bool):     # if True: / if False:
-            return tree((body if t.value else orelse) + rest, env)
-        return ("IF", t, tree(body + rest, env), tree(orelse + rest, env))
+            return rec((body if t.value else orelse) + rest, env)
+        return ("IF", t, rec(body + rest, env), rec(orelse + rest, env))
     if isinstance(st, ast.Assert):
-        return ("ASSERT", subst(st.test, env), tree(rest, env))
+        return ("ASSERT", _sub(st.test, env), rec(rest, env))
     if isinstance(st, ast.Assign) and len(st.targets) == 1:
         tg = st.targets[0]
         if isinstance(tg, ast.Name):
-            env[tg.id] = subst(st.value, env)
-            return tree(rest, env)
+            env[tg.id] = _sub(st.value, env)
+            return rec(rest, env)
         if isinstance(tg, ast.Tuple) and all(isinstance(t, ast.Name) for t in tg.elts):
-            v = subst(st.value, env)
+            v = _sub(st.value, env)
             if isinstance(v, ast.Tuple) and len(v.elts) == len(tg.elts):
                 for t, x in zip(tg.elts, v.elts):
                     env[t.id] = x
             else:
                 for i, t in enumerate(tg.elts):
                     env[t.id] = ast.Subscript(value=v, slice=ast.Constant(i), ctx=ast.Load())
-            return tree(rest, env)
+            return rec(rest, env)
     if isinstance(st, (ast.Assign, ast.AugAssign, ast.AnnAssign, ast.Expr, ast.Delete)):
-        return ("EFF", subst(st, env), tree(rest, env))
-    return ("OPAQUE", subst(st, env), tree(rest, env))
+        return ("EFF", _sub(st, env), rec(rest, env))
+    return ("OPAQUE", _sub(st, env), rec(rest, env))
 
 
-def of(fn):
-    return tree(body_of(fn))
+def of(fn, scope=None):
+    return tree(body_of(fn), None, scope)
 
 
 def show(t):
@@ -176,6 +321,16 @@ def leaves(t, path=()):
         yield from leaves(t[2], path + ((k + ":" + " ".join(_u(t[1]).split()), None),))
     else:
         yield path, t
+
+
+def only_raises(t):
+    """every path of the tree ends in a raise"""
+    k = t[0]
+    if k == "IF":
+        return only_raises(t[2]) and only_raises(t[3])
+    if k in ("EFF", "OPAQUE", "ASSERT"):
+        return only_raises(t[2])
+    return k == "RAISE"
 
 
 def effects(t):
